@@ -417,7 +417,12 @@ fn arbitrary_variant(u: &mut Unstructured, weight: &[usize]) -> Result<usize> {
             Some(*sum)
         })
         .collect();
-    let selected = u.int_in_range(0..=prefix_sum[prefix_sum.len() - 1] - 1)?;
+    let total = match prefix_sum.last() {
+        Some(total) if *total > 0 => *total,
+        // no alternative, or none that has a value
+        _ => return Err(Error::msg("empty variant")),
+    };
+    let selected = u.int_in_range(0..=total - 1)?;
     for (i, e) in prefix_sum.iter().enumerate() {
         if selected < *e {
             return Ok(i);
